@@ -35,7 +35,7 @@ SCALAR_TOKENS = ["0", "a", "", "-", "length", "1", "é"]
 
 def plan(tier, seed):
     n = 15 if tier == "quick" else 46
-    return [{"kind": "scale"}] + [{"n": 110 if tier == "quick" else 700} for _ in range(n)]
+    return [{"kind": "scale"}, {"kind": "flags"}] + [{"n": 110 if tier == "quick" else 700} for _ in range(n)]
 
 
 def tclass(t):
@@ -330,6 +330,12 @@ def run(spec, ctx):
     if spec.get("kind") == "scale":
         run_scale(ctx)
         return
+    if spec.get("kind") == "flags":
+        # pointer texts with %XX / \uXXXX sequences read under every decoding option, in several orders, in one process
+        from rt import flag_history
+
+        flag_history.run(ctx)
+        return
     r = ctx.rng
     names = [n for n in gen.ALL_NAMES if not re.fullmatch(r"[0-9]{16,}", n)]
     for i in range(spec["n"]):
@@ -392,6 +398,11 @@ def finalize(m, tier):
 
 
 def replay(case, ctx):
+    if case.get("flags"):
+        from rt import flag_history
+
+        flag_history.run(ctx)
+        return
     if case.get("text_history"):
         text_document_history(ctx, case["doc"], list(nodes(case["doc"])))
         return
